@@ -45,6 +45,8 @@ SPECS = {
     "objcache": ("Eb", lambda t: ["objcache", "5" if t == "thorough" else "4"], "ObjectCache (RwLock-guarded) vs abstract LRU model: every get/put history (bounded) over 3 ids and 2 values, capacities 0..=3, plus a recency drain"),
     "objects": ("Eb", lambda t: ["objects", "3" if t == "thorough" else "2"], "strings and names (values and dictionary keys) -> real writer (legacy + object streams) -> real reader -> same value"),
     "revisions": ("Eb", lambda t: ["revisions", "3" if t == "thorough" else "2"], "revision chains (classic tables / xref streams / object streams / frees) -> PdfReader::get_object in both orders under three presets == newest definition"),
+    "filters-roundtrip": ("Eb", lambda t: ["filters-roundtrip", "60000" if t == "thorough" else "20000"], "decode(reference_encode(x)) == x: LZW (weezl) / Flate (flate2) alone and chained, PNG predictors 10-15 and TIFF predictor 2 from reference encoders, decode_stream and decode_stream_with_limit"),
+    "notes-history": ("Eb", lambda t: ["notes-history", "4" if t == "thorough" else "3"], "histories of incremental text-note edits: byte-prefix kept, listed notes == model after every step; note contents for every code point U+0020..U+02FF"),
     "labels": ("Eb", lambda t: ["labels", "20000" if t == "thorough" else "5000"], "decimal/roman format(n) vs reference formatters; PageLabel/PageLabelTree::to_dict read by an independent object-level reader"),
     "content": ("Eb", lambda t: ["content", "4" if t == "thorough" else "3"], "API -> content stream -> ContentParser::parse_strict: show-text operands and f64 operands with NaN/inf"),
     "png-grid": ("Eb", lambda t: ["png-grid"], "PNG files from a reference encoder (gray 1/2/4/8 bit, RGB8; filters 0-4; widths 1..17) -> Image::from_png_data vs expected 8-bit samples"),
@@ -81,6 +83,10 @@ def run(prop, names, tier):
                 rec["subbyte_total"] = res.get("subbyte_total"); rec["subbyte_wrong"] = res.get("subbyte_wrong")
                 rec["failures"].append(dict(unit="standin", function="png-grid-subbyte", message=f"Eb stand-in: {res['subbyte_wrong']} of {res['subbyte_total']} gray PNGs with bit depth < 8 do not decode to the expected samples",
                                             line=0, src=None, spans=[], rendered="", engine="Eb", standin_witness=[dict(depth=1, width=16, height=1)]))
+            if nm == "filters-roundtrip" and res.get("tiff_wrong"):
+                rec["tiff_total"] = res.get("tiff_total"); rec["tiff_wrong"] = res.get("tiff_wrong")
+                rec["failures"].append(dict(unit="standin", function="filters-roundtrip-tiff2", message=f"Eb stand-in: {res['tiff_wrong']} of {res['tiff_total']} TIFF-predictor (Predictor 2) streams from a reference encoder do not decode to the original bytes",
+                                            line=0, src=None, spans=[], rendered=json.dumps(res.get("tiff_examples"))[:1500], engine="Eb", standin_witness=res.get("tiff_examples")))
             if nm == "opnames" and res.get("irregular_wrong"):
                 rec["irregular_wrong"] = res.get("irregular_wrong")
                 rec["failures"].append(dict(unit="standin", function="opnames-irregular", message=f"Eb stand-in: {res['irregular_wrong']} resource names with white space / delimiters / '#' are not read back from the content stream",
